@@ -147,6 +147,8 @@ pub struct ArgSpec {
     pub long_help: Option<String>,
     pub value_names: Vec<String>,
     pub display_order: Option<usize>,
+    /// name of a `clap::ValueHint` variant
+    pub value_hint: Option<String>,
 }
 
 #[derive(Clone, Debug, PartialEq, Eq, Hash, Default, Serialize, Deserialize)]
@@ -480,6 +482,24 @@ pub fn build_arg(s: &ArgSpec) -> Arg {
     }
     if let Some(o) = s.display_order {
         a = a.display_order(o);
+    }
+    if let Some(h) = &s.value_hint {
+        use clap::ValueHint as H;
+        a = a.value_hint(match h.as_str() {
+            "AnyPath" => H::AnyPath,
+            "FilePath" => H::FilePath,
+            "DirPath" => H::DirPath,
+            "ExecutablePath" => H::ExecutablePath,
+            "CommandName" => H::CommandName,
+            "CommandString" => H::CommandString,
+            "CommandWithArguments" => H::CommandWithArguments,
+            "Username" => H::Username,
+            "Hostname" => H::Hostname,
+            "Url" => H::Url,
+            "EmailAddress" => H::EmailAddress,
+            "Other" => H::Other,
+            _ => H::Unknown,
+        });
     }
     a
 }
